@@ -37,7 +37,7 @@ def cname(F, n):
         return "Vec::" + last
     if s.startswith("core::num::<impl "):
         return "int::" + last
-    if s.startswith("core::ptr::") and "<impl" in s:
+    if (s.startswith("core::ptr::") or s.startswith("std::ptr::")) and "<impl" in s:
         return "ptr::" + last
     parts = s.split("::")
     return "::".join(parts[-2:]) if len(parts) >= 2 else s
